@@ -176,7 +176,7 @@ theorem answer_dropLast_none (inner : Inner N) (low high right : Option Nat) (fi
           cases ht : t.take (n + 1) with
           | nil => rw [ht] at hx; simp at hx
           | cons b u =>
-            rw [ht, List.dropLast_cons₂] at hx
+            rw [ht, List.dropLast_cons_cons] at hx
             rcases List.mem_cons.1 hx with hx | hx
             · rw [hx]; simp
             · exact List.mem_cons_of_mem _ (ih n x (by rw [ht]; exact hx))
